@@ -353,7 +353,16 @@ namespace detail {
                 star_pos < arrow_after_pos && 
                 arrow_after_pos < endl_after_pos)
             {
+                if (endl_after_pos == std::string::npos)
+                {
+                    return occurrences + 1;
+                }
                 return count_inits(s.substr(endl_after_pos), occurrences + 1);
+            }
+            else if (star_pos != std::string::npos)
+            {
+                // a [*] which is not an initial marker (X -> [*]): keep looking behind it
+                return count_inits(s.substr(star_pos + 3), occurrences);
             }
             return occurrences;
         };
